@@ -13,7 +13,7 @@ Every Rust panic inside these functions is an explicit `Except.error (.panic …
 Names come from the exporter's `NameMap` and are a parameter (`Ctx`); name hygiene is property C15.
 -/
 namespace RsslVerif.Model.GenHlsl
-open RsslVerif.Gen.HlslGenTables RsslVerif.Model
+open RsslVerif.Gen.HlslGenTables RsslVerif.Gen.HlslIntrinsicTables RsslVerif.Model
 open RsslVerif.Model.Ir (Ty Var Const)
 
 inductive GenErr where
@@ -76,12 +76,13 @@ def mkLit (k : LitKind) (c : Const) : Except GenErr HlslAst.Lit :=
   | .FloatUntyped, .floatLit b => .ok (.floatUntyped b)
   | _, _ => .error (.unsupported "literal kind")
 
-/-- `-v as u64`: the negation is computed in the constant's own type (i32 overflows on `i32::MIN`, debug build) -/
-def negMagnitude (c : Const) : Except GenErr Nat :=
+/-- magnitude of a negative constant.  `checked` = the arm computes `-v as u64` in the constant's own type (an `i32`
+overflows on `i32::MIN`, debug build); otherwise `u64::from(v.unsigned_abs())`, which is total (since fix b1ff3d2) -/
+def negMagnitude (checked : Bool) (c : Const) : Except GenErr Nat :=
   match c with
   | .intLit v => .ok (-v).toNat
   | .int32 v =>
-    if v = BitVec.intMin 32 then .error (.panic "hlsl/src/ast_generate.rs: attempt to negate with overflow")
+    if checked = true ∧ v = BitVec.intMin 32 then .error (.panic "hlsl/src/ast_generate.rs: attempt to negate with overflow")
     else .ok (-v.toInt).toNat
   | _ => .error (.unsupported "negMinus arm on a non-integer constant")
 
@@ -94,7 +95,12 @@ def genLiteral (c : Const) : Except GenErr HlslAst.Expr :=
   | some (.plain k) => (mkLit k c).map .lit
   | some (.widen k) => (mkLit k c).map .lit
   | some (.negMinus k) =>
-    match k, negMagnitude c with
+    match k, negMagnitude true c with
+    | .IntUntyped, .ok m => .ok (.un .Minus (.lit (.intUntyped m)))
+    | _, .ok _ => .error (.unsupported "negMinus kind")
+    | _, .error e => .error e
+  | some (.negMinusAbs k) =>
+    match k, negMagnitude false c with
     | .IntUntyped, .ok m => .ok (.un .Minus (.lit (.intUntyped m)))
     | _, .ok _ => .error (.unsupported "negMinus kind")
     | _, .error e => .error e
@@ -133,6 +139,15 @@ def genExpr (cx : Ctx) : Ir.Expr → Except GenErr HlslAst.Expr
     match genArgs cx args with
     | .error e => .error e
     | .ok as => .ok (.call (cx.funcName f) as)
+  | .intr i _ _ args =>
+    -- generate_intrinsic_function
+    match intrinsicForm i with
+    | .invoke name =>
+      match genArgs cx args with
+      | .error e => .error e
+      | .ok as => .ok (.call name as)
+    | .unexpected => .error (.panic "generate_intrinsic_function: Unexpected intrinsic")
+    | _ => .error (.unsupported "method intrinsic")
   | .op o args =>
     match opForm o with
     | .unexpected => .error (.panic "generate_intrinsic_op: not expected")
@@ -225,22 +240,22 @@ def genStmt (cx : Ctx) : Ir.Stmt → Except GenErr HlslAst.Stmt
     match genVarDef cx id init with
     | .error e => .error e
     | .ok (tn, name, i) => .ok (.var tn name i)
-  | .block b => (genStmts cx b).map .block
+  | .block b => (genStmtsAcc cx b .nil).map .block
   | .ifThen c b =>
     match genExpr cx c with
     | .error e => .error e
     | .ok c' =>
-      match genStmts cx b with
+      match genStmtsAcc cx b .nil with
       | .error e => .error e
       | .ok b' => .ok (.ifThen c' (.block b'))
   | .ifElse c t f =>
     match genExpr cx c with
     | .error e => .error e
     | .ok c' =>
-      match genStmts cx t with
+      match genStmtsAcc cx t .nil with
       | .error e => .error e
       | .ok t' =>
-        match genStmts cx f with
+        match genStmtsAcc cx f .nil with
         | .error e => .error e
         | .ok f' => .ok (.ifElse c' (.block t') (.block f'))
   | .for init cond inc b =>
@@ -253,18 +268,18 @@ def genStmt (cx : Ctx) : Ir.Stmt → Except GenErr HlslAst.Stmt
         match genOptExpr cx inc with
         | .error e => .error e
         | .ok inc' =>
-          match genStmts cx b with
+          match genStmtsAcc cx b .nil with
           | .error e => .error e
           | .ok b' => .ok (.for init' cond' inc' (.block b'))
   | .while c b =>
     match genExpr cx c with
     | .error e => .error e
     | .ok c' =>
-      match genStmts cx b with
+      match genStmtsAcc cx b .nil with
       | .error e => .error e
       | .ok b' => .ok (.while c' (.block b'))
   | .doWhile b c =>
-    match genStmts cx b with
+    match genStmtsAcc cx b .nil with
     | .error e => .error e
     | .ok b' =>
       match genExpr cx c with
@@ -273,17 +288,30 @@ def genStmt (cx : Ctx) : Ir.Stmt → Except GenErr HlslAst.Stmt
   | .break => .ok .break
   | .continue => .ok .continue
   | .ret e => (genOptExpr cx e).map .ret
-/-- `generate_scope_block` (no case labels in the subset) -/
-def genStmts (cx : Ctx) : Ir.Stmts → Except GenErr HlslAst.Stmts
-  | .nil => .ok .nil
-  | .cons s r =>
+  | .switch _ c b =>
+    match genExpr cx c with
+    | .error e => .error e
+    | .ok c' =>
+      match genStmtsAcc cx b .nil with
+      | .error e => .error e
+      | .ok b' => .ok (.switch c' (.block b'))
+  | .caseLabel c =>
+    -- "We use an empty statement as the syntax requires a statement after a label … removed in generate_scope_block"
+    match genLiteral c with
+    | .error e => .error e
+    | .ok e => .ok (.caseLabel e .empty)
+  | .defaultLabel => .ok (.defaultLabel .empty)
+/-- the loop of `generate_scope_block`: `acc` = the statements pushed so far -/
+def genStmtsAcc (cx : Ctx) : Ir.Stmts → HlslAst.Stmts → Except GenErr HlslAst.Stmts
+  | .nil, acc => .ok acc
+  | .cons s r, acc =>
     match genStmt cx s with
     | .error e => .error e
-    | .ok s' =>
-      match genStmts cx r with
-      | .error e => .error e
-      | .ok r' => .ok (.cons s' r')
+    | .ok s' => genStmtsAcc cx r (HlslAst.pushStmt acc s')
 end
+
+/-- `generate_scope_block` -/
+def genStmts (cx : Ctx) (b : Ir.Stmts) : Except GenErr HlslAst.Stmts := genStmtsAcc cx b .nil
 
 def genParams (cx : Ctx) : List (Nat × Ir.Dir × Ty) → Except GenErr (List (String × Ir.Dir × String))
   | [] => .ok []
